@@ -15,6 +15,7 @@ MANIFEST = {
     'note': 'Trusted: numpy/scipy.sparse. NaN frequencies are outside the property\'s quantifier and not generated.',
     'technique': 'brute-force reference histogram vs the real spectra, exhaustive edge-hitting enumeration + seeded random',
 }
+LOGGER_ON_ODD_SHARDS = True
 BUDGET_S = {'quick': 60, 'thorough': 420}
 MAXK = {'quick': 3, 'thorough': 4}
 NRANDOM = {'quick': 3000, 'thorough': 40000}
